@@ -230,6 +230,171 @@ def sender_scenario(W, nthreads, nframes, piece, line_points, with_recv=False, s
     return scen
 
 
+def close_during_send_case(res, W, size, piece, delay, close_to, close_at):
+    """One thread is in the middle of a frame that the transport takes in small pieces over a long time; another thread calls
+    close(timeout=...) meanwhile: whatever close() does about its timeout, the bytes on the wire stay a sequence of whole frames -
+    the sender's frame intact, a close frame (if any) before or after it, never inside."""
+    out = {}
+
+    def scen():
+        S = sched.CURRENT
+        w, conn, peer = H.connected_ws()
+        conn.write_plan = itertools.cycle([piece])
+        conn.send_delay = delay
+        req_len = len(conn.sent)
+        body = bytes((i * 7) & 0xFF for i in range(size))
+        errors = []
+
+        def sender():
+            try:
+                w.send_binary(body)
+            except BaseException as e:  # noqa
+                if isinstance(e, sched.SimAbort):
+                    raise
+                errors.append(("sender", e))
+
+        def closer():
+            S.sleep(close_at)
+            try:
+                w.close(timeout=close_to)
+            except BaseException as e:  # noqa
+                if isinstance(e, sched.SimAbort):
+                    raise
+                errors.append(("closer", e))
+        actors = [S.spawn(sender, name="S0"), S.spawn(closer, name="closer")]
+        S.block(lambda: all(a.state == sched.DONE for a in actors), None, why="join")
+        out.update(wire=bytes(conn.sent[req_len:]), body=body, errors=errors)
+    S = sched.Sched(horizon=600, watchdog=60)
+    case = {"gen": "close-during-send", "frame_size": size, "piece": piece, "write_takes": delay, "close_timeout": close_to, "close_at": close_at}
+    res.case(("close-during-send", size, piece, delay, close_to, close_at), nontrivial=True)
+    res.count("close_during_send_cases")
+    try:
+        S.run(scen)
+    except sched.SimFailure as e:
+        if isinstance(e, sched.WatchdogExpired):
+            res.inconc("close-during-send: watchdog")
+        else:
+            res.violation("deadlock" if isinstance(e, sched.Deadlock) else "not-terminated", f"close() during a slow send: {e}", case, scenario="close-during-send")
+        return
+    wire = out["wire"]
+    frames, pos = R.decode_all(wire)
+    whole = [f for f in frames if f.opcode == R.BINARY]
+    if pos != len(wire):
+        # a final frame cut short (the transport went away under the sender) is tolerable only if it is the sender's own frame, byte-exact
+        # as far as it got, with nothing else mixed in
+        tail_ok = False
+        try:
+            f = R.decode_one(wire[pos:] + bytes(len(out["body"]) + 64), 0)
+            hdr = f.end - f.length
+            part = wire[pos + hdr:]
+            tail_ok = f.opcode == R.BINARY and f.length == len(out["body"]) and f.masked and R.unmask(f.key, part) == out["body"][:len(part)]
+        except Exception:  # noqa
+            tail_ok = False
+        if not tail_ok or any(f.opcode == R.CLOSE for f in frames):
+            res.violation("wire-garbage", f"close(timeout={close_to}) at t={close_at} during a {size}-byte frame written {piece} bytes per {delay}s: {len(wire) - pos} bytes "
+                          f"behind {[(f.opcode, f.length) for f in frames]} are not a whole frame", case, scenario="close-during-send")
+        return
+    if any(f.payload != out["body"] for f in whole) or len(whole) > 1:
+        res.violation("interleaved-frame", f"close(timeout={close_to}) during a slow send: binary frames on the wire {[(f.length, f.payload == out['body']) for f in whole]}", case,
+                      scenario="close-during-send")
+
+
+def real_tcp_big_senders(res, W):
+    """Two threads each send several 1 MiB messages over a real loopback TCP connection (no timeout, no TLS) whose server drains
+    slowly, so that every write blocks on a full kernel buffer: the server must decode whole frames, each carrying one sender's payload.
+    (Real threads and the real kernel: complements the scheduler explorations, which run on the simulated transport.)  A damaged
+    stream has to reproduce on a second attempt before it is reported."""
+    import socket
+    import threading
+    import time
+    MSG = 1 << 20
+    for attempt in range(2):
+        lsock = socket.socket()
+        lsock.setsockopt(socket.SOL_SOCKET, socket.SO_REUSEADDR, 1)
+        lsock.setsockopt(socket.SOL_SOCKET, socket.SO_RCVBUF, 65536)
+        lsock.bind(("127.0.0.1", 0))
+        lsock.listen(1)
+        port = lsock.getsockname()[1]
+        got = bytearray()
+        done = threading.Event()
+
+        def server(lsock=lsock, got=got, done=done):
+            try:
+                lsock.settimeout(15)
+                c, _ = lsock.accept()
+                c.settimeout(15)
+                buf = b""
+                while b"\r\n\r\n" not in buf:
+                    d = c.recv(4096)
+                    if not d:
+                        return
+                    buf += d
+                c.sendall(H.response_101(H.request_key(buf) or ""))
+                while True:
+                    d = c.recv(32768)
+                    if not d:
+                        break
+                    got.extend(d)
+                    if len(got) % (1 << 19) < 32768:
+                        time.sleep(0.002)  # drain slowly
+                c.close()
+            except OSError:
+                pass
+            finally:
+                lsock.close()
+                done.set()
+        threading.Thread(target=server, daemon=True).start()
+        errors = []
+        try:
+            w = W.create_connection(f"ws://127.0.0.1:{port}/", timeout=None)
+        except Exception as e:  # noqa
+            res.notes["real_tcp_big_senders"] = f"could not connect: {e}"
+            return
+
+        def sender(t, w=w, errors=errors):
+            try:
+                for k in range(4):
+                    w.send_binary(bytes([0x41 + t]) * (MSG + t * 1000 + k))
+            except Exception as e:  # noqa
+                errors.append((t, e))
+        ths = [threading.Thread(target=sender, args=(t,), daemon=True) for t in (0, 1)]
+        for th in ths:
+            th.start()
+        for th in ths:
+            th.join(60)
+        stuck = any(th.is_alive() for th in ths)
+        try:
+            w.shutdown()
+        except Exception:  # noqa
+            pass
+        done.wait(30)
+        res.count("real_tcp_big_sender_runs")
+        if stuck:
+            res.notes["real_tcp_big_senders"] = "senders still busy after 60 s (machine overloaded?): run skipped"
+            return
+        problem = None
+        try:
+            frames, pos = R.decode_all(bytes(got))
+        except Exception as e:  # noqa
+            frames, pos, problem = [], 0, f"undecodable stream: {e}"
+        if problem is None:
+            if pos != len(got) or len(frames) != 8:
+                problem = f"{len(frames)} whole frames, {len(got) - pos} stray bytes (8 frames sent)"
+            else:
+                for f in frames:
+                    if f.opcode != R.BINARY or len(set(f.payload)) != 1 or f.payload[0] not in (0x41, 0x42):
+                        problem = f"a frame of {f.length} bytes is not one sender's message (distinct byte values {sorted(set(f.payload))[:4]})"
+                        break
+        if errors and problem is None:
+            problem = f"sender raised {errors[0][1]!r}"
+        if problem is None:
+            res.count("real_tcp_big_frames_intact", 8)
+            return
+        if attempt == 1:
+            res.violation("interleaved-frame", f"two threads sending 1 MiB messages over a real TCP connection (blocking, no timeout): {problem}",
+                          {"gen": "real-tcp-big-senders"}, scenario="real-tcp-big-senders")
+
+
 def expected_sends(nthreads, nframes, fragmenting=False):
     exp = {}
     for t in range(nthreads):
@@ -633,8 +798,16 @@ def run(res, tier, seed, shard, nshards):
     jobs.append(("RM", 2, "sweep-line", 100000))
     jobs.append(("RM", 3, "sweep2-line", 300 if quick else 20000))
     jobs.append(("RF", 2, "sweep2-line", 300 if quick else 20000))
+    for size, piece, delay, close_to, close_at in [(32768, 512, 0.02, 0.3, 0.1), (4000, 100, 0.05, 0.2, 0.33), (70000, 1000, 0.01, 0, 0.05), (2000, 7, 0.01, 0.5, 0.5),
+                                                   (32768, 512, 0.02, 3, 0.1), (300, 3, 0.05, 0.1, 1.0)]:
+        jobs.append(("CDS", size, piece, delay, close_to, close_at))
+    if shard == 3 % nshards:
+        real_tcp_big_senders(res, W)
     for ji, job in enumerate(jobs):
         if ji % nshards != shard:
+            continue
+        if job[0] == "CDS":
+            close_during_send_case(res, W, *job[1:])
             continue
         if job[0] == "sw":
             short_write_cases(res, W, rng, tier, job[1], 4)
